@@ -105,6 +105,19 @@ HISTORY = {
     "C19-r9-1": "round 9. first run: missed by C19 and C17; the arrays returned by tonumpy / lead_exponent / lead_coefficient are overwritten and the polynomial is queried again",
     "C16-r9-1": "round 9. first run: missed by C16, C15 and C14; a quarter of the printing cases now also set retain_names / retain_coefficients",
     "C16-r9-2": "round 9. a rejected set_options call has applied the keys before the unknown one: caught by C14",
+    "C06-r10-2": "round 10 (hard mode). first run: missed; designators now also come from another setting (created under retain_coefficients=True, used under the case's options) and from an earlier alignment (they carry all-zero terms)",
+    "C14-r10-1": "round 10. first run: the check ended *inconclusive* (the library raised KeyError while restoring, outside any guard, and the worker died); exceptions raised inside the library outside a guarded call are violations now (harness and worker), and a history reports 'unexpected <exception>'",
+    "C14-r10-2": "round 10. first run: missed; option settings with None values ('setN', 'enterN') joined the alphabet",
+    "C10-r10-1": "round 10. first run: missed by C10 and C11; diff is now also called with positional n, axis, prepend, append",
+    "C03-r10-1": "round 10. first run: caught by C11 (read-only constant operands), missed by C03; a fifth of the constructor triples now pass write-protected coefficient arrays",
+    "C04-r10-1": "round 10. first run: missed by C04 and C15; a fifth of the cases with two or more operands first send them through align_exponents / align_indeterminants and align the outputs",
+    "C04-r10-2": "round 10. first run: missed by C04 and C15; outputs made from plain numbers / lists / arrays are overwritten and the same inputs aligned again",
+    "C07-r10-1": "round 10. first run: missed by C07 and C15; a fifth of the random pairs are aligned first and compared as views (.T, ravel(), [::-1]) of the aligned arrays",
+    "C07-r10-2": "round 10. needs retain_names=False: caught by C15; C07 runs under the sort options only",
+    "C15-r10-1": "round 10. hessian under retain_names=False on a name set without q0: caught by C06 (its option dimension); C15's derivative entry did not draw such a case in the quick tier",
+    "C15-r10-2": "round 10. tonumpy reading the first stored term: caught by C19 (constants stored behind a zero term); the mechanism repeats C19-r3G8-1",
+    "C20-r10-1": "round 10. needs retain_names=False: caught by C15",
+    "C20-r10-2": "round 10. numpoly.call writes the positional values into the caller's kwargs dict: caught by C17 (and by C02's repeat rider); C20 does not reuse a kwargs dict",
     "C06-2": "first run: caught by C06, missed by C15; C15's derivative entry now differentiates with respect to several variables",
 }
 REJECTED = [
